@@ -109,6 +109,9 @@ class Gen:
             return self.shadow_schema()
         if k == "record" and self.defaults and self.r.random() < 0.06:
             return self.defaults_schema()
+        if k in ("array", "map") and self.use_ns and self.r.random() < 0.15:
+            inner = self.shadow_schema()          # not a record at the top: a parsed form of it carries no marker and is parsed again
+            return {"k": "array", "items": inner} if k == "array" else {"k": "map", "values": inner}
         return self.typ(self.max_depth, "", force=k, under_union=False, safe_rec=False)
 
     def shadow_schema(self):
@@ -143,7 +146,19 @@ class Gen:
 
         outer = rec("Outer", "")
         inner = None
-        order = r.choice(["null-first", "ns-first"])
+        order = r.choice(["null-first", "ns-first", "nested"])
+        if order == "nested":
+            # the null-namespace type is declared (with "namespace": "") INSIDE the namespaced record, after its namesake
+            inner = rec(self.full(ns, "Inner"), ns)
+            p_ = named(ns)
+            inner["fields"].append(fld("p", p_))
+            x = named("")
+            inner["fields"].append(fld("x", x))
+            inner["fields"].append(fld("q", use(p_["full"])))
+            outer["fields"].append(fld("y", inner))
+            if r.random() < 0.6:
+                outer["fields"].append(fld("w", use(x["full"])))
+            return outer
         if order == "null-first":
             x = named("")
             outer["fields"].append(fld("x", x))
@@ -398,12 +413,21 @@ class Gen:
             return self.big_union(ns)
         if depth > 0 and r.random() < self.overlap_bias:
             return self.overlap_union(ns)
+        if self.logical and r.random() < 0.08:
+            # a floating branch ahead of a decimal: a Decimal is not a float
+            dec = {"k": "prim", "name": "bytes"}
+            self.add_decimal(dec, None)
+            br = [{"k": "prim", "name": r.choice(["double", "float"])}, dec]
+            if r.random() < 0.5:
+                br.insert(0, {"k": "prim", "name": "null"})
+            return {"k": "union", "br": br}
         if r.random() < 0.1:
             # primitives one of which promotes to an earlier one: the branch of the value's own type comes after a promotion target
             chain = r.choice([["bytes", "string"], ["string", "bytes"], ["bytes", "string"], ["string", "bytes"], ["double", "int"], ["long", "int"], ["double", "float", "long", "int"],
                               ["float", "long"], ["double", "long"], ["double", "float"],
                               # ... and the other way round: the first conforming branch is decided at the range boundaries
-                              ["int", "long"], ["int", "double"], ["float", "double"], ["int", "long", "double"], ["long", "double"]])
+                              ["int", "long"], ["int", "double"], ["float", "double"], ["float", "double"], ["int", "long", "double"], ["long", "double"],
+                              ["int", "long"]])
             br = [{"k": "prim", "name": x} for x in chain]
             if r.random() < 0.5:
                 br.insert(r.randint(0, len(br)), {"k": "prim", "name": "null"})
@@ -789,6 +813,8 @@ class Gen:
             x = r.random()
             if x < 0.15:
                 return r.choice([2 ** 63 - 1, 2 ** 63 - 1, -2 ** 63])
+            if x < 0.22:
+                return r.choice([2 ** 31, -2 ** 31 - 1, 2 ** 31 - 1, -2 ** 31])      # just outside / inside int
             if x < 0.6:
                 return r.choice(LONG_POOL)
             k = r.randint(1, 9)
